@@ -23,3 +23,16 @@ TWINS = [
     T("join-inlined", D, "    def get_full_text(self) -> str:\n        return _join_unit_text(self.iterate_units())\n\n    def get_metadata(self) -> PdfMetadata:", "    def get_full_text(self) -> str:\n        return (\"\\n\".join(unit.get_text() for unit in self.iterate_units())).strip()\n\n    def get_metadata(self) -> PdfMetadata:"),
     T("enumerate-positional-start", D, "        for page_number, page in enumerate(self.pages, start=1):\n            yield PdfUnit(", "        for page_number, page in enumerate(self.pages, 1):\n            yield PdfUnit("),
 ]
+
+# --- seeded changes kept under /verif/seeded (sub-agents saw only the property text); each must be reported by the named rule
+import os as _os
+from sa.selftest.harness import P as _P
+_SEEDS = _os.path.join(_os.path.dirname(_os.path.dirname(_os.path.dirname(_os.path.abspath(__file__)))), "seeded")
+SEEDED = [
+    ("C03-1", "C03-FILL"),
+    ("C03-2", "C03-COVER"),
+    ("C03-3", "C03-JOIN"),
+    ("C03-4", "C03-FILL"),
+    ("C03-5", "C03-JOIN"),
+]
+MUTANTS = list(MUTANTS) + [_P("seed-" + sid, _os.path.join(_SEEDS, sid, "patch.diff"), rule) for sid, rule in SEEDED if _os.path.exists(_os.path.join(_SEEDS, sid, "patch.diff"))]
